@@ -191,3 +191,41 @@ func zzH_C18c() {
 		vReach("end")
 	})
 }
+
+// zzH_C18fb: a caller arrives during a Fallback pause while every target is healthy. DialTimeout is
+// beyond the horizon and the ticker is switched off; the harness itself performs the detector round
+// that the next tick would perform (Client.detect) once the pause is over: that round must release the
+// caller, which is then routed.
+func zzH_C18fb() {
+	rt := &zzRT{up: map[string]bool{"a": true}}
+	c := NewClient(nil)
+	c.Transport = rt
+	c.Update("a")
+	vSetClockStep(1)
+	vSetTimerBudget(0)
+	vSetOneShotMax(1000000) // 1 ms: Fallback(1000ns) fires, DialTimeout (1 min) does not
+	if !vSymbolic() {
+		c.DialTimeout = 3 * time.Second
+	}
+	vQuiesce() // the detector's first round finds the target
+	c.Fallback(1000)
+	var err error
+	returned := false
+	vGo("caller", func() {
+		err = c.Call("S.M", nil, nil)
+		returned = true
+	})
+	vQuiesce() // the caller parks (or is routed at once if the pause is already over); the pause may end
+	if c.fallback != 0 {
+		c.Close() // the pause is not over on this path: nothing to check
+		return
+	}
+	c.detect() // the next detector round
+	vQuiesce()
+	vAssert(returned, "no-caller-stranded")
+	if returned {
+		vAssert(err == nil, "woken-after-fallback")
+	}
+	c.Close()
+	vReach("end")
+}
